@@ -27,6 +27,10 @@ pub struct Violation {
     pub related: Option<(Lane, Vec<u8>, String)>,
     /// how to reproduce: "none" (single call), "prefix" (streaming pair), or the companion kind
     pub relation: String,
+    /// the calls this worker made just before (and including) the failing one
+    pub preceding: Vec<(Lane, Vec<u8>)>,
+    /// (phase, task) of the enumeration task that found it
+    pub task: (u32, u32),
 }
 
 #[derive(Clone, Debug, Default)]
@@ -279,6 +283,8 @@ pub struct Checker {
     scratch: Vec<u8>,
     comp_set: Vec<Vec<u8>>,
     pub relation_tag: &'static str,
+    /// (phase, task) currently executed by this checker (set by the runner)
+    pub task_id: (u32, u32),
 }
 
 impl Checker {
@@ -294,6 +300,7 @@ impl Checker {
             scratch: Vec::new(),
             comp_set: crate::model::completion_set(),
             relation_tag: "none",
+            task_id: (u32::MAX, u32::MAX),
         }
     }
 
@@ -305,7 +312,8 @@ impl Checker {
         self.nviol += 1;
         if self.violations.len() < self.limit {
             let relation = self.relation_tag.to_string();
-            self.violations.push(Violation { what, lane: *lane, input: input.to_vec(), observed, expected, related, relation });
+            let preceding = self.caller.recent_calls();
+            self.violations.push(Violation { what, lane: *lane, input: input.to_vec(), observed, expected, related, relation, preceding, task: self.task_id });
         }
     }
 
